@@ -180,6 +180,26 @@ def check_wide_sum(ctx):
               "non_shared + value_length is added in 64 bits", "the two 32-bit lengths are added in 32 bits: the sum can wrap past the bound")
 
 
+def check_internal_key_gate(ctx):
+    """Every internal key that enters from a block passed a >= 8 byte gate (the
+    comparator reads the tag at size - 8)."""
+    from ..rules import must_cross_edge_before, rel_edge, truth_of
+    f = ctx.fn("parse_next_key", BLK)
+    must_cross_edge_before(ctx, "T2-decoder-guard", "parse_next_key:internal-key-8", f,
+                           lambda c, p: truth_of(c, p, "is_internal") is False or rel_edge(c, p, ">=", "(shared + non_shared)", 8),
+                           lambda e: is_call(e, "ldb_buffer_append") and argkey(e, 0) == "&iter->key",
+                           "a key is assembled only if the iterator is not internal or the key has its 8-byte tag")
+    s = ctx.fn("ldb_blockiter_seek", BLK)
+    must_cross_edge_before(ctx, "T2-decoder-guard", "blockiter_seek:target-8", s,
+                           lambda c, p: truth_of(c, p, "is_internal") is False or rel_edge(c, p, ">=", "target->size", 8),
+                           lambda e: is_call(e, "do_compare"),
+                           "the seek target is compared only if it has its 8-byte tag (internal iterators)")
+    must_cross_edge_before(ctx, "T2-decoder-guard", "blockiter_seek:restart-key-8", s,
+                           lambda c, p: truth_of(c, p, "is_internal") is False or rel_edge(c, p, ">=", "non_shared", 8),
+                           lambda e: is_call(e, "do_compare") and argkey(e, 1) == "&mid_key",
+                           "a restart key is compared only if it has its 8-byte tag (internal iterators)")
+
+
 def check_decode_int(ctx):
     """x*10 + d cannot overflow: the multiplication is reachable only across
     an edge establishing x <= limit and not (x == limit and ch > last)."""
@@ -379,6 +399,7 @@ def check(ctx):
     check_rows(ctx)
     check_restart_clamp(ctx)
     check_wide_sum(ctx)
+    check_internal_key_gate(ctx)
     check_decode_int(ctx)
     check_cursor_pairs(ctx)
     check_arith(ctx)
